@@ -64,7 +64,12 @@ def _as_bits(v, fmt):
     return "ResultType:" + type(v).__name__, 0
 
 
-def call_one(fn, fmt, xi):
+def form_of(xi):
+    """How the argument is phrased: a NumPy scalar, or (one pattern in five) a 0-d array - the other dispatch branch."""
+    return "0d" if xi % 5 == 2 else "scalar"
+
+
+def call_one(fn, fmt, xi, form=None):
     """-> (xi, k bits, r bits, lo bits, raised, N)"""
     from functional_algorithms import floating_point_algorithms as fpa, utils
     dt = bits.FLOAT[fmt]
@@ -72,6 +77,8 @@ def call_one(fn, fmt, xi):
     if ctx is None:
         ctx = _CTX[fmt] = utils.NumpyContext(dt)
     x = bits.from_bits_int(xi, fmt)
+    if (form or form_of(xi)) == "0d":
+        x = numpy.array(x)
     try:
         with warnings.catch_warnings(), numpy.errstate(all="ignore"):
             warnings.simplefilter("ignore")
@@ -83,6 +90,8 @@ def call_one(fn, fmt, xi):
         return (xi, 0, 0, 0, type(ex).__name__, 0)
     out = []
     for v in (k, r, lo):
+        if isinstance(v, numpy.ndarray) and v.ndim == 0:
+            v = v[()]
         prob, b = _as_bits(v, fmt)
         if prob:
             return (xi, 0, 0, 0, prob, 0)
@@ -114,6 +123,32 @@ def witness(fmt, xi, kb, rb, tb):
 def _work(task):
     fn, fmt, pats = task
     return [call_one(fn, fmt, xi) for xi in pats]
+
+
+HIST_POINTS = (Fraction(5, 2), Fraction(100), Fraction(-7, 8), Fraction(12345, 8))
+
+
+def _work_hist(task):
+    """One history in a FRESH process: a first call (format, form) followed by probes in every format and form -
+    no call may leave anything behind that changes a later call (module-level caches, contexts)."""
+    fn, first_fmt, first_form = task
+    _CTX.clear()
+    out = []
+    seq = [(first_fmt, first_form, HIST_POINTS[0])]
+    seq += [(fmt, form, pt) for fmt in ("float64", "float32", "float16") for form in ("scalar", "0d") for pt in HIST_POINTS]
+    for fmt, form, pt in seq:
+        out.append((fmt, call_one(fn, fmt, pat_of(pt, fmt), form)))
+    return out
+
+
+def run_histories(fn):
+    """-> [(fmt, result tuple)] over all first calls; every history runs in its own forked process"""
+    res = []
+    for first_fmt in ("float16", "float32", "float64"):
+        for first_form in ("0d", "scalar"):
+            with cf.ProcessPoolExecutor(max_workers=1, mp_context=multiprocessing.get_context("fork")) as ex:
+                res += ex.submit(_work_hist, (fn, first_fmt, first_form)).result()
+    return res
 
 
 class Runner:
@@ -482,8 +517,8 @@ def export_shapes(chk):
     chk.add_mc("MC_ArgReduce_shapes", r)
     shapes = [v[1] for v in tlaval.printed_values(r.out, "S")]
     shapes.sort(key=lambda d: json.dumps(d, sort_keys=True))
-    if len(shapes) != 34:
-        raise tlc.MachineryError("expected 34 shape classes, TLC printed %d" % len(shapes))
+    if len(shapes) != 38:
+        raise tlc.MachineryError("expected 38 shape classes, TLC printed %d" % len(shapes))
     return shapes
 
 
@@ -538,6 +573,14 @@ def run(tier, seed):
     try:
         for sh in shapes:
             fn, fmt, cls = sh["fn"], sh["fmt"], sh["cls"]
+            if cls == "history":
+                if fmt != "float64":      # the histories span all formats: run once per function (under the float64 shape)
+                    continue
+                for hf, rr in run_histories(fn):
+                    stats.count(fn, hf, cls, 1)
+                    events.append(make_event(eid, fn, hf, cls, rr))
+                    eid += 1
+                continue
             if fmt == "float16":
                 pats = gen_f16(fn, cls, rng)
             else:
